@@ -268,7 +268,7 @@ fn new_from_stage(specs_list: &[usize], alphabet: &Alphabet, max_nodes: usize, m
 /// names for the long-batch stage (static strings, deliberately not in sorted order of creation)
 fn long_names() -> &'static [N] {
     static NAMES: std::sync::OnceLock<Vec<N>> = std::sync::OnceLock::new();
-    NAMES.get_or_init(|| (0..2200).map(|i| -> N { Box::leak(format!("m{:04}", (i * 7919) % 2200).into_boxed_str()) }).collect())
+    NAMES.get_or_init(|| (0..4200).map(|i| -> N { Box::leak(format!("m{:04}", (i * 7919) % 4200).into_boxed_str()) }).collect())
 }
 
 /// Long batches: lengths around round numbers (where a size-gated fast path would switch on), with a
